@@ -408,6 +408,14 @@ func (s *simSource) SetPacketFilter(spec packets.PacketFilterSpec) error {
 	if cb := w.OnBeforeFilter; cb != nil {
 		cb(h, spec)
 	}
+	// the program is generated before the wire's lock is taken, as the real capture source generates it without any lock:
+	// two handles generating their programs at the same time must not share state (race detector)
+	var raw []bpf.RawInstruction
+	var genErr error
+	if w.Mode != FilterOff && spec.FilterType != packets.FilterTypeNone {
+		raw, genErr = packets.VerifClassicBPFFilter(spec)
+		raw = append([]bpf.RawInstruction(nil), raw...) // the kernel copies the program when it is attached
+	}
 	w.mu.Lock()
 	now := time.Now()
 	if h.SourceClosed > 0 {
@@ -430,8 +438,7 @@ func (s *simSource) SetPacketFilter(spec packets.PacketFilterSpec) error {
 	h.vm = nil
 	var ferr error
 	if w.Mode != FilterOff && spec.FilterType != packets.FilterTypeNone {
-		raw, err := packets.VerifClassicBPFFilter(spec)
-		if err != nil {
+		if err := genErr; err != nil {
 			ferr = fmt.Errorf("SetPacketFilter failed to get BPF filter program: %w", err)
 		} else {
 			insns, ok := bpf.Disassemble(raw)
